@@ -27,6 +27,7 @@ pub struct Prepared {
     pub glr_scope: bool,
     pub glr: Option<(Dump, Dyn)>,
     pub lr: Vec<LrSide>,
+    pub lex: bool,
 }
 
 fn tables_equal(a: &Dump, b: &Dump) -> bool {
@@ -95,7 +96,7 @@ pub fn prepare(g: &AG, wd: &Workdir, rep: &mut Rep, prop: &str) -> Option<Prepar
             }
         }
     }
-    Some(Prepared { g: g.clone(), text, cyclic, glr_scope, glr, lr })
+    Some(Prepared { g: g.clone(), text, cyclic, glr_scope, glr, lr, lex: false })
 }
 
 fn err_info(e: &rustemo::Error) -> (Option<rustemo::SourceSpan>, String) {
@@ -360,7 +361,7 @@ pub fn judge_input(p: &Prepared, ic: &InputCase, rep: &mut Rep, prop: &str) {
 fn judge_forest<'i>(p: &Prepared, dg: &Dump, f: &rustemo::Forest<'i, str, dynp::Pk, dynp::Tk>, en: &mut Enum, ic: &InputCase, rep: &mut Rep) {
     let m = Map::new(dg, &p.g);
     let agj = p.g.to_json();
-    let case = |extra: Value| json!({"grammar": p.text, "ag": agj, "input": ic.input, "tokens": ic.w, "extra": extra});
+    let case = |extra: Value| json!({"grammar": p.text, "ag": agj, "input": ic.input, "tokens": ic.w, "lex": p.lex, "extra": extra});
     let sig = |kind: &str| format!("{}:{}:{}", kind, fnv(&p.text), fnv(&ic.input));
     let mut exp: Vec<T> = en.trees_all().iter().map(|t| t.norm()).collect();
     exp.sort();
@@ -427,6 +428,136 @@ fn judge_forest<'i>(p: &Prepared, dg: &Dump, f: &rustemo::Forest<'i, str, dynp::
             Err(pm) => rep.violation("C03", &sig("oob-panic"), &format!("get_tree({}) panicked: {:?}", k, pm), case(json!(null))),
         }
     }
+}
+
+// ---------------------------------------------------------------- C03: lexically ambiguous sub-family
+
+const LEXPOOL: &[(&str, bool)] = &[("a", false), ("ab", false), ("abc", false), ("b", false), ("bc", false), ("c", false), ("ca", false), ("a+", true), ("[ab]+", true), ("ab?", true), ("b+c?", true), ("[a-c]", true), ("c[ab]*", true)];
+
+/// Gives the terminals of a BNF grammar overlapping recognisers (equal priorities).
+pub fn lexify(g: &mut AG, rng: &mut crate::rng::Rng) {
+    let mut idx: Vec<usize> = (0..LEXPOOL.len()).collect();
+    rng.shuffle(&mut idx);
+    for (i, t) in g.terms.iter_mut().enumerate() {
+        let (r, is_re) = LEXPOOL[idx[i % idx.len()]];
+        t.rec = if is_re { Rec::Re(r.to_string()) } else { Rec::Lit(r.to_string()) };
+    }
+}
+
+/// Token lattice: every terminal's match at every reachable position (whitespace skipped).
+pub fn lex_lattice(g: &AG, input: &str) -> Lattice {
+    let res: Vec<Option<regex::Regex>> = g.terms.iter().map(|t| if let Rec::Re(r) = &t.rec { Some(regex::Regex::new(&format!("^(?:{})", r)).unwrap()) } else { None }).collect();
+    let norm = |p: usize| crate::c06::skip_ws(input, p);
+    let mut offs: std::collections::BTreeSet<usize> = Default::default();
+    let mut work = vec![norm(0)];
+    let mut raw: Vec<(usize, usize, usize, usize)> = vec![]; // from, term, start, end(normalised)
+    while let Some(p) = work.pop() {
+        if !offs.insert(p) {
+            continue;
+        }
+        for (ti, t) in g.terms.iter().enumerate() {
+            let len = match &t.rec {
+                Rec::Lit(l) => {
+                    if input[p..].starts_with(l.as_str()) {
+                        Some(l.len())
+                    } else {
+                        None
+                    }
+                }
+                Rec::Re(_) => res[ti].as_ref().unwrap().find(&input[p..]).map(|m| m.end()),
+            };
+            if let Some(len) = len {
+                if len > 0 {
+                    let to = norm(p + len);
+                    raw.push((p, ti, p, p + len));
+                    work.push(to);
+                }
+            }
+        }
+    }
+    offs.insert(input.len());
+    let order: Vec<usize> = offs.iter().cloned().collect();
+    let index = |o: usize| order.binary_search(&o).unwrap();
+    let mut edges: Vec<Vec<Edge>> = vec![vec![]; order.len()];
+    for (from, term, start, end) in raw {
+        edges[index(from)].push(Edge { term, to: index(norm(end)), start, end });
+    }
+    Lattice { edges, start: index(norm(0)), end: index(input.len()) }
+}
+
+pub fn lex_spec() -> SetSpec {
+    SetSpec { glr: true, ms: false, lm: false, go: Some(false), ..Default::default() }
+}
+
+pub fn judge_lex_input(p: &Prepared, input: &str, rep: &mut Rep) {
+    let Some((dg, dyg)) = &p.glr else { return };
+    let lat = lex_lattice(&p.g, input);
+    let mut en = Enum::new(&p.g, &lat);
+    let cnt = en.count_all();
+    let ic = InputCase { w: vec![], input: input.to_string(), toks: vec![] };
+    let agj = p.g.to_json();
+    let case = |extra: Value| json!({"grammar": p.text, "ag": agj, "input": input, "lex": true, "extra": extra});
+    let sig = |kind: &str| format!("lex-{}:{}:{}", kind, fnv(&p.text), fnv(input));
+    crate::rep::watchdog::set(|| case(json!(null)).to_string());
+    rep.count("evaluations", 1);
+    rep.count("lexical_family_inputs", 1);
+    dynp::set_step_limit(STEP_BUDGET);
+    match guarded(|| dyg.glr_parse(input)) {
+        Err(pm) => rep.violation("C03", &sig("panic"), &format!("GLR parser panicked or ran away: {:?}", pm), case(json!(null))),
+        Ok(Err(e)) => {
+            if cnt > 0 {
+                rep.violation("C03", &sig("rejects"), &format!("GLR rejects a sentence with {} derivation trees over its token lattice: {}", cnt, err_info(&e).1), case(json!(null)));
+            }
+        }
+        Ok(Ok(f)) => {
+            if cnt == 0 {
+                rep.violation("C03", &sig("accepts"), "GLR accepts an input that has no derivation over its token lattice", case(json!(null)));
+                return;
+            }
+            if cnt > 20_000 {
+                rep.count("forest_not_inspected_large_or_cyclic", 1);
+                return;
+            }
+            let sol = f.solutions() as u64;
+            if sol != cnt {
+                rep.violation("C03", &sig("solutions"), &format!("solutions() = {} but the input has {} derivation trees over its token lattice", sol, cnt), case(json!(null)));
+            }
+            if cnt >= 2 {
+                rep.distinct("nontrivial", fnv(&p.text));
+                rep.distinct("lexically_ambiguous_grammars", fnv(&p.text));
+            }
+            if cnt <= 400 && sol <= 400 {
+                judge_forest(p, dg, &f, &mut en, &ic, rep);
+            }
+        }
+    }
+}
+
+pub fn run_lex_grammar(g: &AG, wd: &Workdir, rep: &mut Rep, maxlen: usize, only: Option<&str>) {
+    rep.count("grammars_generated", 1);
+    if !g.glr_scope() {
+        rep.count("grammars_out_of_scope", 1);
+        return;
+    }
+    let text = g.text();
+    let spec = lex_spec();
+    let c = wd.compile(&text, &spec);
+    let (Outcome::Ok, Some(d)) = (&c.outcome, c.dump) else {
+        rep.count("lexical_family_not_compiled", 1);
+        return;
+    };
+    let Ok(dy) = Dyn::new(&d, spec.dyn_cfg()) else { return };
+    rep.count("grammars_in_scope", 1);
+    let p = Prepared { g: g.clone(), text, cyclic: false, glr_scope: true, glr: Some((d, dy)), lr: vec![], lex: true };
+    match only {
+        Some(i) => judge_lex_input(&p, i, rep),
+        None => {
+            for input in crate::c06::all_inputs(&['a', 'b', 'c', ' '], maxlen) {
+                judge_lex_input(&p, &input, rep);
+            }
+        }
+    }
+    rep.sample(json!({"grammar_name": "lexically ambiguous family (all lexical strategies off)", "grammar": p.text}));
 }
 
 /// into_iter() consumes the forest, so it needs its own parse.
@@ -515,8 +646,8 @@ pub fn run_grammar(g: &AG, name: &str, wd: &Workdir, rep: &mut Rep, prop: &str, 
             judge_input(&p, &InputCase { w, input, toks }, rep, prop);
         }
     }
-    // a few longer random sentences and mutations of them
-    for _ in 0..6 {
+    // longer random sentences and mutations of them (many when the alphabet is too large for long exhaustive strings)
+    for _ in 0..(if g.terms.len() > 4 { 40 } else { 6 }) {
         if let Some(mut w) = random_sentence(g, rng, l + 6) {
             if w.len() > 14 {
                 continue;
@@ -572,11 +703,22 @@ pub fn main(a: &Args) {
     while i < n && rep.elapsed() < a.max_s {
         let big = i % 5 == 4;
         let o = if big { BnfOpts { max_nt: 5, max_t: 4, max_alts: 3, max_len: 4, ..opts } } else { opts };
-        let g = gen_bnf(&mut rng, &o);
+        let g = if i % 5 == 3 { gen_ctx(&mut rng) } else { gen_bnf(&mut rng, &o) };
         i += 1;
+        if prop == "C03" && i % 4 == 1 && g.reduced() {
+            let mut lg = g.clone();
+            lexify(&mut lg, &mut rng);
+            run_lex_grammar(&lg, &wd, &mut rep, if a.thorough { 6 } else { 5 }, None);
+        }
         if !g.reduced() {
             rep.count("grammars_not_reduced", 1);
             continue;
+        }
+        let mut g = g;
+        if (prop == "C13" || prop == "C12" || prop == "C07") && rng.chance(0.35) {
+            // non-ASCII and multi-line token texts
+            unicodeify(&mut g, &mut rng);
+            rep.count("grammars_with_non_ascii_multiline_literals", 1);
         }
         run_grammar(&g, "random_bnf", &wd, &mut rep, prop, maxlen, &mut rng);
     }
@@ -588,6 +730,10 @@ fn replay(path: &str, wd: &Workdir, rep: &mut Rep, prop: &str) {
     let v: Value = serde_json::from_str(&std::fs::read_to_string(path).expect("read replay")).expect("json");
     let case = &v["case"];
     let g = AG::from_json(&case["ag"]);
+    if case["lex"].as_bool() == Some(true) {
+        run_lex_grammar(&g, wd, rep, 5, case["input"].as_str());
+        return;
+    }
     let p = prepare(&g, wd, rep, prop).unwrap();
     if let Some(input) = case["input"].as_str() {
         // re-tokenise: the recorded token kinds, located in order in the input
